@@ -1772,10 +1772,18 @@ class BaseBosonicState(BaseState):
         cutoff = kwargs.get("cutoff", 10)
         weights, mus, covs = self.reduced_bosonic(modes)  # pylint: disable=unused-variable
 
+        # thewalrus expects (x1,...,xN,p1,...,pN) ordering; bosonic data is (x1,p1,...,xN,pN)
+        num = mus.shape[1] // 2
+        xxpp = np.concatenate([np.arange(0, 2 * num, 2), np.arange(1, 2 * num, 2)])
+
         rho = 0
         for i in range(self.num_weights):
             rho += weights[i] * twq.density_matrix(
-                mus[i], covs[i], hbar=self._hbar, normalize=False, cutoff=cutoff
+                mus[i][xxpp],
+                covs[i][xxpp][:, xxpp],
+                hbar=self._hbar,
+                normalize=False,
+                cutoff=cutoff,
             )
         return rho
 
@@ -1893,10 +1901,13 @@ class BaseBosonicState(BaseState):
         if sum(n) >= cutoff:
             raise ValueError("Cutoff argument must be larger than the sum of photon numbers.")
 
+        # thewalrus expects (x1,...,xN,p1,...,pN) ordering; bosonic data is (x1,p1,...,xN,pN)
+        xxpp = np.concatenate([np.arange(0, 2 * self._modes, 2), np.arange(1, 2 * self._modes, 2)])
+
         prob = 0
         for i in range(self.num_weights):
             prob += self._weights[i] * twq.density_matrix_element(
-                self._mus[i], self._covs[i], n, n, hbar=self._hbar
+                self._mus[i][xxpp], self._covs[i][xxpp][:, xxpp], n, n, hbar=self._hbar
             )
         return prob.real
 
